@@ -408,7 +408,11 @@ def run(ctx, repo, tier):
     pts = repo.cls("molgri.molecules.pts", "Pseudotrajectory")
     gen = pts.find_method("generate_pseudotrajectory")
     ctx.analysed(gen)
-    from ..astutil import const_slice
+    from ..astutil import const_slice, splice_self_calls
+    from ..model import FunctionInfo as _FI9, set_parents as _sp9
+    _spl9 = splice_self_calls(pts, gen.node, module=pts.module)      # the row may be split inside a helper
+    _sp9(_spl9)
+    gen = _FI9(gen.name, gen.qualname, gen.module, _spl9, gen.cls)
     rowvars = set()
     for n in ast.walk(gen.node):
         if isinstance(n, ast.For):
@@ -417,6 +421,10 @@ def run(ctx, repo, tier):
                 tg = tg.elts[1]
             if isinstance(tg, ast.Name):
                 rowvars.add(tg.id)
+    for n in ast.walk(gen.node):        # plain aliases of a row variable (helper parameters after splicing)
+        if isinstance(n, ast.Assign) and len(n.targets) == 1 and isinstance(n.targets[0], ast.Name) and isinstance(n.value, ast.Name) and \
+                n.value.id in rowvars:
+            rowvars.add(n.targets[0].id)
     slices = set()
     for n in ast.walk(gen.node):
         if isinstance(n, ast.Subscript) and isinstance(n.value, ast.Name) and n.value.id in rowvars:
